@@ -3,8 +3,10 @@ SPECIFICATION Spec
 CONSTANTS
   CodeUnanchored = FALSE
   CodeNoRange = FALSE
-  Zones = {"UTC", "Asia/Kolkata", "America/New_York"}
+  Zones = {"UTC", "Asia/Kolkata", "America/New_York", "Europe/Berlin"}
+  FormatKinds = {"chrono", "dayfirst", "timefirst", "unix", "withz", "dirday"}
   AllowTs = TRUE
+  AllProfiles = TRUE
 INVARIANTS TruthLemma IdealPassOK
 INVARIANTS EmitUniverse EmitScenarios
 CHECK_DEADLOCK FALSE
